@@ -373,7 +373,7 @@ def run_probe(payload, limit):
 def timing(ctx, impl):
     fams = impl.FAMILIES
     nmax = ctx.n(51200, 204800)
-    limit = ctx.n(25, 60)
+    limit = ctx.n(120, 300)          # wall-clock backstop only; a probe stops by itself once one call exceeds `cap`
 
     def one(name):
         kind = fams[name][0]
@@ -449,7 +449,7 @@ def model_steps(ctx, impl):
     body = ("\nDefinition cases : list (list Z) := " + coq_list(rows) + ".\n"
             "Eval vm_compute in map (fun s => map (fun p => re_steps p MSearch s) [OLD_STYLE_HINT_RE; NEW_STYLE_HINT_RE; TOR_HINT_RE; I2P_HINT_RE]) cases.\n")
     try:
-        (vals,) = ctx.coq_eval("C20_steps", body, requires=REQ)
+        (vals,) = ctx.coq_eval("C20_steps", body, requires=REQ, timeout=60)
     except common.CoqEvalError as e:
         ctx.note("model step counts not evaluated: " + tail(str(e), 300))
         return
@@ -467,7 +467,7 @@ def run(ctx):
                 ": . [ ] %% - , / @ newline, non-ASCII digits, Kelvin sign, NUL); function cases = FURL strings through "
                 "decode_furl/encode_furl/SturdyRef and (hint, handler set) through convert_legacy_hint/get_endpoint with the "
                 "real tcp/tor/i2p handlers; non-trivial = decoded successfully / contains a colon; CPU time on %d adversarial "
-                "families with doubling sizes in a killed-on-timeout child process" % 21)
+                "families with doubling sizes in a killed-on-timeout child process" % len(__import__("harness.c20_impl", fromlist=["x"]).FAMILIES))
     ctx.assumptions = [
         "sre's work is within a constant factor of the model matcher's step count (checked only by CPU-time growth on adversarial families)",
         "\\d, str.lower and int() digit values are taken from the running interpreter's unicodedata (regenerated every run)",
@@ -559,7 +559,8 @@ def run(ctx):
         rx = [c for c in rx if not (c in seen or seen.add(c))]
         correspond_regex(ctx, impl, rx)
         correspond_functions(ctx, impl, furls, hint_cases)
-        model_steps(ctx, impl)
+        if ok:
+            model_steps(ctx, impl)
 
     # 4. CPU time growth (child processes)
     timing(ctx, impl)
